@@ -34,7 +34,7 @@ func runC03(c *Ctx) {
 
 func (c *Ctx) ruleNotifyAfterChange(rule string) {
 	R := c.R
-	c.Rep.rule(rule, "E2 path + E3", "notify follows every enabling state change (enqueue, completion, Running stored, limit raised, 'enqueued' announcement, purge)", 20)
+	c.Rep.rule(rule, "E2 path + E3", "notify follows every enabling state change (enqueue, completion, Running stored, limit raised, 'enqueued' announcement, purge, a queue bound to a running worker)", 20)
 	// (a) submit functions bound to a worker
 	for _, f := range c.submitFuncs() {
 		if !c.hasWorker(f) {
@@ -54,6 +54,22 @@ func (c *Ctx) ruleNotifyAfterChange(rule string) {
 		for _, sg := range v.seq(rule, false).segments(R.Completion) {
 			c.Rep.check(sg.has("inflight-") && sg.followedBy("inflight-", "notify"), rule, R.Completion.Short(), "completion not followed by notify", sg.End,
 				"notify after the in-flight decrement", "the completion callback does not notify the dispatcher after freeing its slot: pending jobs are not picked up ["+strings.Join(sg.Syms, " ")+"]")
+		}
+	}
+	// (b') a queue registered on a worker that is already Running (a second bind) may hold items: the bind notifies
+	ws0 := c.workerStatus()
+	for _, f := range c.bindMethods() {
+		v := c.vocab([]string{"register", "notify", "wstatus:"}, nil)
+		v.also = map[string]bool{"wstatus?": true}
+		sr := v.seq(rule, false)
+		sr.trackField = R.FStatus
+		sr.init = kv("").set("T", ws0.ByName["Running"])
+		for _, sg := range sr.segments(f) {
+			if sg.Kind != "path" || !sg.has("register") {
+				continue
+			}
+			c.Rep.check(sg.followedBy("register", "notify"), rule, f.Short(), "queue bound to a running worker without a notify", sg.End, "register … notify (worker Running)",
+				f.Short()+" registers a queue on a worker that is already running and does not wake the dispatcher: items the queue already holds (a persistent or distributed store) stay pending until an unrelated event ["+strings.Join(sg.Syms, " ")+"]")
 		}
 	}
 	// (c) every lifecycle outcome that stores Running notifies afterwards
